@@ -269,7 +269,8 @@ CloseDone(e) ==
       H == Held(sk)
       fr == ToSet(e.freed)
   IN /\ Report(e, <<Chk(socks[e.s].live, "INTERNAL", "close_of_closed", 0, e.s),
-                    Chk(e.ok = 1, "INTERNAL", "ctx_store_seam_not_hit", 1, e.ok),
+                    \* xcm_close and xcm_cleanup alike give the socket's reference to its context back
+                    Chk(e.ok = 1, "C18.released", "reference_kept", <<"ctx_store_put by", IF e.why = "cleanup" THEN "xcm_cleanup" ELSE "xcm_close">>, e.ok),
                     Chk(fr \cap H = {}, "C18.released", "freed_in_use", H, e.freed),
                     Chk(X \in H \/ X \in fr, "C18.released", "leak", <<"freed", X>>, e.freed),
                     Chk(e.live - base = Cardinality(H), "C18.released", IF e.live - base > Cardinality(H) THEN "leak" ELSE "freed_in_use",
